@@ -301,6 +301,22 @@ def _derived(s):
             out[name] = np.asarray(v, dtype=float).copy()
         except (TypeError, ValueError):
             continue
+    # the assembled system read through the public getter belongs to the restored state too (tangent matrix and residual of non-linear simulations)
+    try:
+        for nm, A in zip("KCMF", s.Get_K_C_M_F()):
+            out[f"matrix:{nm}"] = np.asarray(A.toarray() if hasattr(A, "toarray") else A, dtype=float).copy()
+    except Exception:
+        pass
+    return out
+
+
+def _mats(s):
+    out = {}
+    try:
+        for nm, A in zip("KCMF", s.Get_K_C_M_F()):
+            out[f"matrix:{nm}"] = np.asarray(A.toarray() if hasattr(A, "toarray") else A, dtype=float).copy()
+    except Exception:
+        pass
     return out
 
 
@@ -326,7 +342,7 @@ def ob_roundtrip(sim, mode, dynamic, variant=None):
                 s.Solver_Set_Parabolic_Algorithm(dt=0.1, alpha=0.5)
             else:
                 s.Solver_Set_Hyperbolic_Algorithm(dt=0.05)
-        saved_state, saved_results, named = [], [], []
+        saved_state, saved_results, named, saved_mats = [], [], [], []
         hist = []
         for k in range(3):
             _bc(s, sim, k)
@@ -336,6 +352,8 @@ def ob_roundtrip(sim, mode, dynamic, variant=None):
             hist.append(f"Save_Iter#{k}")
             saved_state.append(_state(s))
             saved_results.append(_deep_results(s, k))
+            s.Need_Update()                      # the system of the state just saved, assembled afresh
+            saved_mats.append(_mats(s))
             name = "displacement" if sim != "Thermal" else "thermal"
             named.append(np.asarray(s.Result(name)).copy())
             if mode == "switch" and k == 0:
@@ -363,6 +381,12 @@ def ob_roundtrip(sim, mode, dynamic, variant=None):
         seen = {}
         for i in (0, 1, 0, 2, 1, 0):
             s.Set_Iter(i)
+            # the assembled system read through the public getter is that of the restored state (tangent matrix / residual of non-linear simulations, damaged stiffness)
+            bad, e = _derived_diff(saved_mats[i], _mats(s), tol=1e-8)
+            if bad is not None:
+                raise Refuted(f"{sim}{'/' + variant if variant else ''}/{mode}: after Set_Iter({i}) Get_K_C_M_F() returns a {bad} that differs by {e:.3e} (relative) from the system assembled on that state when it "
+                              f"was saved: the matrices of another state are handed out", cex=dict(history=hist + [f"Set_Iter({i})", "Get_K_C_M_F"], which=bad), signature=f"roundtrip:{sim}:system:{bad}",
+                              replay=dict(confirmed=True, rel_diff=e))
             dv = _derived(s)
             if i in seen:
                 bad, e = _derived_diff(seen[i], dv)
